@@ -177,6 +177,37 @@ def adversarial():
     one('pass-only', 'pass\n')
     one('underscore', '_\n')
     one('underscore-def', 'def _ := 1\n')
+    # positions where the grammar admits a general expression / type but later stages assume a restricted form (each is guarded by an
+    # earlier stage: a guard that is loosened, or a form that slips through, meets an `expect`/`panic!` or prints text Python refuses)
+    FORMS = ['_', 'q', 'q: Int', 'q: E1', 'E1', '_: E1', '5', '"s"', 'None', 'True', '(qa, qb)', 'q: Nope', '1 + 1', 'ff(1)', '[qa]', 'q.r', 'q: E1, r: E1', 'q: {E1, E2}', 'q: E1?',
+             'E1("m")', 'self', 'q: (Int) -> Int', '-1', 'q[0]', '\\z: Int => z']
+    PRE = 'class E1(msg: Str): Exception(msg)\nclass E2(msg: Str): Exception(msg)\ndef ff(k: Int) -> Int raise [E1] =>\n    if k > 2 then raise E1("m")\n    k\n'
+    for n, form in enumerate(FORMS):
+        one(f'form:handle-arm:{n}', PRE + f'def a := ff(10) handle\n    err: E1 => 0 - 1\n    {form} => 0 - 2\nprint(a)\n')
+        one(f'form:handle-arm-only:{n}', PRE + f'ff(10) handle\n    {form} => print("h")\n')
+        one(f'form:match-arm:{n}', PRE + f'def m := 3\nmatch m\n    {form} => print("a")\n    _ => print("b")\n')
+        one(f'form:for-target:{n}', PRE + f'for {form} in [1, 2] do print("x")\n')
+        one(f'form:def-target:{n}', PRE + f'def {form} := 3\nprint("x")\n')
+        one(f'form:with-alias:{n}', PRE + f'def res := 10\nwith res as {form} do print("w")\n')
+        one(f'form:class-name:{n}', PRE + f'class {form}\n    def v: Int := 1\nprint("c")\n')
+        one(f'form:parent:{n}', PRE + f'class Kid: {form}\n    def v: Int := 1\nprint("c")\n')
+        one(f'form:raises-list:{n}', PRE + f'def g(k: Int) -> Int raise [{form}] => k\nprint("r")\n')
+        one(f'form:builder-source:{n}', PRE + f'def b := [z | z in {form}]\nprint("b")\n')
+        one(f'form:builder-condition:{n}', PRE + f'def b := [z | z in [1, 2], {form}]\nprint("b")\n')
+        one(f'form:lambda-parameter:{n}', PRE + f'def l := \\{form} => 1\nprint("l")\n')
+        one(f'form:parameter:{n}', PRE + f'def g({form}) -> Int => 1\nprint("p")\n')
+        one(f'form:import-name:{n}', PRE + f'from os import {form}\nprint("i")\n')
+        one(f'form:reassign-target:{n}', PRE + f'def t := 1\n{form} := 2\nprint("t")\n')
+    TFORMS = ['() -> Int', '(Int) ->', '(Int) -> (Int) -> Int', 'Callable', 'Callable[Int]', 'Callable[[Int], Int]', 'Callable[Int, Int, Int]', '(Int, ) -> Int', '{}', '{Int}', '{Int, }',
+              'List', 'List[]', 'List[Int, Int]', 'Tuple', 'Tuple[]', '(Int)', '()', 'Int[Str]', 'Int??', 'None?', '{Int, Str}?', 'Union[Int]', 'Optional', 'Optional[Int, Str]', 'Dict[Int]']
+    for n, t in enumerate(TFORMS):
+        one(f'type-form:variable:{n}', f'def tv: {t} := 1\nprint("t")\n')
+        one(f'type-form:parameter:{n}', f'def tf(a: {t}) -> Int => 1\nprint("t")\n')
+        one(f'type-form:return:{n}', f'def tf(a: Int) -> {t} => a\nprint("t")\n')
+        one(f'type-form:field:{n}', f'class TC(def tf: {t})\nprint("t")\n')
+        one(f'type-form:alias:{n}', f'type TA: {t}\nprint("t")\n')
+        one(f'type-form:generic-argument:{n}', f'def tv: List[{t}] := []\nprint("t")\n')
+        one(f'type-form:called:{n}', f'def tf(h: {t}) -> Int => h(1)\nprint("t")\n')
     # multi-file
     A.append(('multi-same-class', [('a.mamba', 'class A\n    def x: Int := 1\n'), ('b.mamba', 'class A\n    def y: Str := "s"\n')]))
     A.append(('multi-import', [('a.mamba', 'class Base\n    def x: Int := 1\n'), ('b.mamba', 'from a import Base\nclass Child: Base\ndef c := Child()\nprint(c.x)\n')]))
